@@ -624,6 +624,14 @@ func Build(p Prog, seed int64, failSlot int, failWhen string, tmpdir string) (*B
 			}
 		case "genempty": // a generic header without any value
 			m.SetGenHeader(mail.Header("X-Verif-Empty"))
+		case "genmultiempty": // ... one of them empty, and not the last
+			m.SetGenHeader(mail.Header("X-Verif-Multi"), "alpha", "", v, "omega")
+			names["X-Verif-Multi"] = true
+		case "envonly": // no From address: the envelope-from stands in for it in the rendering
+			m.SetAddrHeaderIgnoreInvalid(mail.HeaderFrom)
+			if err := m.EnvelopeFrom("sender@from.test"); err != nil {
+				b.SetErr = append(b.SetErr, "envonly")
+			}
 		case "genmulti": // a generic header with several values
 			m.SetGenHeader(mail.Header("X-Verif-Multi"), v, "second value", v)
 			names["X-Verif-Multi"] = true
